@@ -168,16 +168,22 @@ def run_unit(args):
                     pass
 
         timed_out = None
+        stopped = None
         try:
             eng.explore(run_path, on_end)
         except core.HarnessError as e:
             if 'wall-clock budget' in str(e):
                 timed_out = str(e)      # keep what was found so far (candidates), report the unit as inconclusive
+            elif isinstance(e, core.SymLeak):
+                stopped = e
             else:
                 raise
         except (KeyboardInterrupt, SystemExit):
             raise
         except BaseException as e:
+            stopped = e
+        if stopped is not None:
+            e = stopped
             # symbolic execution could not proceed on some path (typically an operation on a symbolic value that the proxies do
             # not model, introduced by a change to the code).  The unit is a harness error whatever happens next; but before
             # giving up, probe the unit natively: a natively failing check is a violation (confirmed by replay like any other).
